@@ -37,6 +37,8 @@ void pointIf(const std::function<bool()>& enabled, const char* label);  // block
 // free harness-level choice (recorded in the trace like a scheduler choice; costs no preemption)
 int choose(int n, const char* label = "choice");
 int self();                                                    // scheduler thread id, -1 if unscheduled
+void atomicPoint(const void* addr);                            // atomics pass: scheduling point at an atomic op on a shared address
+size_t atomicPoints();
 bool othersBlocked();                                          // no other thread is enabled right now (for use inside pointIf predicates)
 
 // called (in the failing process) when no thread is enabled and no timeout is pending / step horizon exceeded;
